@@ -256,8 +256,92 @@ def stream(rnd, fam):
     if FAMS[fam]["interned"] and rnd.random() < 0.06:
         return interned_dup_stream(rnd)
     e = Enc(rnd, fam)
-    e.gen(0)
+    if rnd.random() < 0.6:
+        # the shape of a co_consts: a tuple of several values (a lone leaf exercises one reader only)
+        n = rnd.randrange(2, 7)
+        if e.f["v34"] and rnd.random() < 0.5:
+            i = e.tcode(")"); e.out.append(n)
+        else:
+            i = e.tcode("("); e.out += le32(n)
+        for _ in range(n):
+            e.gen(1)
+        e.finish(i)
+    else:
+        e.gen(0)
     return e.out, sorted((list(k), v) for k, v in e.ft.items()), e.kinds
+
+
+def _leaf(kind):
+    """a fixed encoding of one leaf of the given type code -> (bytes, float-table entries)"""
+    ft = {}
+    if kind in "NTF.S":
+        return [ord(kind)], ft
+    if kind == "i":
+        return [ord("i")] + le32(-77), ft
+    if kind == "I":
+        return [ord("I")] + list(struct.pack("<q", 2 ** 40 + 3)), ft
+    if kind == "l":
+        return [ord("l")] + le32(3) + list(struct.pack("<hhh", 1, 2, 3)), ft
+    if kind == "g":
+        return [ord("g")] + list(struct.pack("<d", -2.25)), ft
+    if kind == "y":
+        return [ord("y")] + list(struct.pack("<dd", 1.5, -0.0)), ft
+    if kind == "f":
+        t = b"2.5"; ft[tuple(t)] = struct.unpack("<Q", struct.pack("<d", 2.5))[0]
+        return [ord("f"), len(t)] + list(t), ft
+    if kind == "x":
+        out = [ord("x")]
+        for t in (b"1.0", b"-3.5"):
+            ft[tuple(t)] = struct.unpack("<Q", struct.pack("<d", float(t)))[0]
+            out += [len(t)] + list(t)
+        return out, ft
+    if kind in "stuaA":
+        b = b"abc" if kind in "aA" else "h\u00e9".encode("utf-8")
+        return [ord(kind)] + le32(len(b)) + list(b), ft
+    if kind in "zZ":
+        return [ord(kind), 2, 104, 105], ft
+    raise ValueError(kind)
+
+
+def leaves_of(fam):
+    f = FAMS[fam]
+    ks = list("NTF.Silfxsu")
+    if f["int64"]:
+        ks.append("I")
+    if f["binfloat"]:
+        ks += ["g", "y"]
+    if f["interned"] or f["v34"]:
+        ks.append("t")
+    if f["v34"]:
+        ks += list("aAzZ")
+    return ks
+
+
+def matrix_streams(fam):
+    """deterministic: every container code of the family around every leaf code, small and (for sequences) with more than 255 items,
+    so that each (container reader, member reader) pair is exercised whatever the seed"""
+    f = FAMS[fam]
+    conts = ["(", "["] + (["<", ">"] if f["sets"] else []) + ([")"] if f["v34"] else []) + ["{k", "{v"]
+    out = []
+    for c in conts:
+        for k in leaves_of(fam):
+            lb, ft = _leaf(k)
+            seven = [ord("i")] + le32(7)
+            for big in (False, True):
+                if big and c not in ("(", "["):
+                    continue
+                if c in ("{k", "{v"):
+                    if c == "{k" and k in "NTF":      # None/bools as keys: fine for marshal, kept
+                        pass
+                    bs = [ord("{")] + (lb + seven if c == "{k" else seven + lb) + [ord("0")]
+                else:
+                    n = 300 if big else 2
+                    items = lb + seven + (seven * (n - 2) if big else [])
+                    bs = [ord(c)] + ([n] if c == ")" else le32(n)) + items
+                    if c in "<>" and big:
+                        continue
+                out.append((bs, sorted((list(a), b) for a, b in ft.items()), {"matrix:" + c[0] + k: 1}))
+    return out
 
 
 def ft_lit(ft):
